@@ -22,7 +22,7 @@ VOCAB = ["proto", "import", "option", "type", "const", "enum", "message", "typed
          "0xFFFFFFFFFFFFFFFFFFFFFFFF", "00", "123456789012345678901234567890", "true", "false", "yes", "no", '"str"', '""', '"a\\nb"', '"\\q"',
          '"\\\\"', '"it\'s"', '"unterminated', "+", "-", "*", "/", "(", ")", ":", ";", "{", "}", "[", "]", "=", "'", ".", ",", "\n", "\n", " ",
          "// c\n", "Name", "name", "NAME", "A.B", "A.B.C.D", "_", "__init__", "é", "\t", "\\", "max_bytes", "c.name_prefix", "lib", "lib.Thing",
-         '"lib.bitproto"', '"missing.bitproto"', '"fuzz.bitproto"', "/", "0", "( 1 / 0 )", "1 / ( 2 - 2 )", "@", "#", "$", "\x0b", "\x00"]
+         '"lib.bitproto"', '"missing.bitproto"', '"fuzz.bitproto"', '"li\x00b.bitproto"', '"\x00"', '"/"', '""', '"."', '"..///lib.bitproto"', "/", "0", "( 1 / 0 )", "1 / ( 2 - 2 )", "@", "#", "$", "\x0b", "\x00"]
 
 
 class Timeout(Exception):
@@ -83,7 +83,21 @@ def char_mutate(rng, text):
 
 def structured(rng):
     """Hostile shapes: long dotted names, deep nesting, long expressions, huge numbers."""
-    r = rng.randrange(8)
+    r = rng.randrange(9)
+    if r == 8:
+        # import paths the operating system (or Python's path functions) dislikes
+        path = rng.choice(["li\x00b.bitproto", "\x00", "", ".", "/", "..", "lib.bitproto/", "/dev/null", "/proc/self/mem", "x" * rng.choice([300, 5000]),
+                           "é中.bitproto", "fuzz.bitproto", "./fuzz.bitproto", "lib.bitproto", "//lib.bitproto", "lib.bitproto\t", " lib.bitproto"])
+        name = rng.choice(["", "as_name ", "lib ", "p "])
+        where = rng.choice(["top", "message", "enum", "twice"])
+        stmt = f'import {name}"{path}"'
+        if where == "top":
+            return f"proto p\n{stmt}\nmessage M {{ bool a = 1 }}\n"
+        if where == "twice":
+            return f"proto p\n{stmt}\n{stmt}\n"
+        if where == "message":
+            return f"proto p\nmessage M {{\n    {stmt}\n    bool a = 1\n}}\n"
+        return f"proto p\nenum E : uint3 {{\n    {stmt}\n}}\n"
     if r == 0:
         return "proto p\nmessage M { " + ".".join(["A"] * rng.choice([2, 50, 400])) + " f = 1 }\n"
     if r == 1:
